@@ -815,7 +815,7 @@ theorem stringStep_fixed_pinned_critical (p : Path V K) (hp : p.integratorfxn = 
     (hneg : ∀ a c, dot (-a) c = - dot a c) (hdot0 : ∀ c, dot 0 c = 0)
     (respace : List Nat → List V → List V) (h : K) (hh : h ≠ 0) (climb : List Nat)
     (hc : 2 ≤ p.coord.length)
-    (hkeep : ∀ (rows : List V) (i : Nat), (i = 0 ∨ i + 1 = rows.length ∨ i ∈ climb) →
+    (hkeep : ∀ (rows : List V), rows.length = p.coord.length → ∀ (i : Nat), (i = 0 ∨ i + 1 = rows.length ∨ i ∈ climb) →
       (respace climb rows)[i]? = rows[i]?)
     (hunit : ∀ τ ∈ p.unitTangent dot sqrt, dot τ τ = 1)
     (hfix : (p.stringStep dot sqrt respace h climb).coord = p.coord)
@@ -824,7 +824,7 @@ theorem stringStep_fixed_pinned_critical (p : Path V K) (hp : p.integratorfxn = 
   have hlen := icoord_length dot sqrt p h climb hc
   obtain ⟨τ, hτ, hrow⟩ := icoord_getElem? dot sqrt p h climb hc i hi
   have h1 : (respace climb (p.icoord dot sqrt h climb))[i]? = (p.icoord dot sqrt h climb)[i]? :=
-    hkeep _ i (by rw [hlen]; exact hpin)
+    hkeep _ hlen i (by rw [hlen]; exact hpin)
   have h2 : (respace climb (p.icoord dot sqrt h climb))[i]? = some p.coord[i] := by
     have : (p.stringStep dot sqrt respace h climb).coord[i]? = p.coord[i]? := by rw [hfix]
     simpa only [Path.stringStep, Path.withCoord, List.getElem?_eq_getElem hi] using this
@@ -842,7 +842,7 @@ theorem stringStep_critical_pinned_fixed (p : Path V K)
     (hp : p.integratorfxn = (fun r x h => euler r x h) ∨ p.integratorfxn = (fun r x h => rungekutta r x h))
     (hdot0 : ∀ c, dot 0 c = 0)
     (respace : List Nat → List V → List V) (h : K) (climb : List Nat) (hc : 2 ≤ p.coord.length)
-    (hkeep : ∀ (rows : List V) (i : Nat), (i = 0 ∨ i + 1 = rows.length ∨ i ∈ climb) →
+    (hkeep : ∀ (rows : List V), rows.length = p.coord.length → ∀ (i : Nat), (i = 0 ∨ i + 1 = rows.length ∨ i ∈ climb) →
       (respace climb rows)[i]? = rows[i]?)
     (i : Nat) (hi : i < p.coord.length) (hpin : i = 0 ∨ i + 1 = p.coord.length ∨ i ∈ climb)
     (hcrit : p.gradPoint p.coord[i] = 0) :
@@ -850,7 +850,7 @@ theorem stringStep_critical_pinned_fixed (p : Path V K)
   have hlen := icoord_length dot sqrt p h climb hc
   obtain ⟨τ, _, hrow⟩ := icoord_getElem? dot sqrt p h climb hc i hi
   have h1 : (respace climb (p.icoord dot sqrt h climb))[i]? = (p.icoord dot sqrt h climb)[i]? :=
-    hkeep _ i (by rw [hlen]; exact hpin)
+    hkeep _ hlen i (by rw [hlen]; exact hpin)
   simp only [Path.stringStep, Path.withCoord, h1, hrow]
   by_cases hcl : climb.contains i = true
   · rw [if_pos hcl, climbRow_fixed_of_critical dot p hp hdot0 h _ τ hcrit]
@@ -982,11 +982,191 @@ theorem relaxPhase_measures_before_last (p : Path V K) (dot : V → V → K) (sq
 
 end phasestop
 
+/-! ### where the re-spacing puts the new images (`respaceTargets`), tied to the `newα` handed to `interpolate_path` -/
+
+section thms
+variable {K : Type} [Field K] [CharZero K]
+
+theorem linspace_length (a b : K) (n : Nat) : (Path.linspace a b n).length = n := by
+  simp [Path.linspace]
+
+theorem linspace_getElem? (a b : K) (n i : Nat) (hi : i < n) :
+    (Path.linspace a b n)[i]? = some (a + (i : K) * ((b - a) / ((n - 1 : Nat) : K))) := by
+  simp [Path.linspace, hi]
+
+/-- the first target of a segment is the arc coordinate of its first image … -/
+theorem linspace_first (a b : K) (n : Nat) (hn : 0 < n) : (Path.linspace a b n)[0]? = some a := by
+  rw [linspace_getElem? a b n 0 hn]; simp
+
+/-- … the last one that of its last image (two images at least) … -/
+theorem linspace_last (a b : K) (n : Nat) (hn : 2 ≤ n) : (Path.linspace a b n)[n - 1]? = some b := by
+  rw [linspace_getElem? a b n (n - 1) (by omega)]
+  have h : ((n - 1 : Nat) : K) ≠ 0 := by
+    have : n - 1 ≠ 0 := by omega
+    exact_mod_cast this
+  congr 1
+  field_simp
+  ring
+
+/-- … and consecutive targets are equally spaced. -/
+theorem linspace_step (a b : K) (n i : Nat) (hi : i + 1 < n) :
+    ∃ x y, (Path.linspace a b n)[i]? = some x ∧ (Path.linspace a b n)[i + 1]? = some y ∧
+      y - x = (b - a) / ((n - 1 : Nat) : K) := by
+  refine ⟨_, _, linspace_getElem? a b n i (by omega), linspace_getElem? a b n (i + 1) hi, ?_⟩
+  push_cast
+  ring
+
+
+/-- one target per image … -/
+theorem respaceGo_length (α : List K) (n s : Nat) (climb : List Nat) (hchain : List.Pairwise (· < ·) (s :: climb))
+    (hint : ∀ c ∈ climb, c + 1 < n) (hs : s < n) : (Path.respaceGo α n s climb).length = n - s := by
+  induction climb generalizing s with
+  | nil => simp [Path.respaceGo, linspace_length]
+  | cons c cs ih =>
+    have hsc : s < c := (List.pairwise_cons.mp hchain).1 c (by simp)
+    have hch' : List.Pairwise (· < ·) (c :: cs) := (List.pairwise_cons.mp hchain).2
+    have hc : c + 1 < n := hint c (by simp)
+    simp only [Path.respaceGo, List.length_append, List.length_take, linspace_length,
+      ih c hch' (fun x hx => hint x (by simp [hx])) (by omega)]
+    omega
+
+/-- … and every pinned image (the first one, the climbing images, the last one) is sent to its own arc coordinate: the
+    re-spacing evaluates the spline at a knot there. -/
+theorem respaceGo_pinned (α : List K) (n s : Nat) (climb : List Nat) (hchain : List.Pairwise (· < ·) (s :: climb))
+    (hint : ∀ c ∈ climb, c + 1 < n) (hs : s < n) (p : Nat) (hp : p = s ∨ p ∈ climb ∨ p + 1 = n) :
+    (Path.respaceGo α n s climb)[p - s]? = some (α.getD p 0) := by
+  induction climb generalizing s with
+  | nil =>
+    simp only [Path.respaceGo, Nat.cast_zero]
+    rcases hp with rfl | hp | hp
+    · simpa using linspace_first (α.getD p 0) (α.getD (n - 1) 0) (n - p) (by omega)
+    · simp at hp
+    · by_cases hps : p = s
+      · subst hps
+        simpa using linspace_first (α.getD p 0) (α.getD (n - 1) 0) (n - p) (by omega)
+      · have h2 : 2 ≤ n - s := by omega
+        have := linspace_last (α.getD s 0) (α.getD (n - 1) 0) (n - s) h2
+        have hpn : p = n - 1 := by omega
+        subst hpn
+        have e1 : n - 1 - s = n - s - 1 := by omega
+        rw [e1]
+        exact this
+  | cons c cs ih =>
+    have hsc : s < c := (List.pairwise_cons.mp hchain).1 c (by simp)
+    have hch' : List.Pairwise (· < ·) (c :: cs) := (List.pairwise_cons.mp hchain).2
+    have hc : c + 1 < n := hint c (by simp)
+    simp only [Path.respaceGo, Nat.cast_zero]
+    by_cases hps : p = s
+    · subst hps
+      rw [List.getElem?_append_left (by simp [linspace_length]; omega)]
+      rw [List.getElem?_take_of_lt (by omega)]
+      simpa using linspace_first (α.getD p 0) (α.getD c 0) (c + 1 - p) (by omega)
+    · have hp' : p = c ∨ p ∈ cs ∨ p + 1 = n := by
+        rcases hp with h | h | h
+        · exact absurd h hps
+        · rcases List.mem_cons.mp h with h | h
+          · exact Or.inl h
+          · exact Or.inr (Or.inl h)
+        · exact Or.inr (Or.inr h)
+      have hcp : c ≤ p := by
+        rcases hp' with h | h | h
+        · omega
+        · exact le_of_lt ((List.pairwise_cons.mp hch').1 p h)
+        · omega
+      have hlen : ((Path.linspace (α.getD s 0) (α.getD c 0) (c + 1 - s)).take (c - s)).length = c - s := by
+        simp [linspace_length]; omega
+      rw [List.getElem?_append_right (by rw [hlen]; omega), hlen]
+      have e : p - s - (c - s) = p - c := by omega
+      rw [e]
+      exact ih c hch' (fun x hx => hint x (by simp [hx])) (by omega) hp'
+
+
+theorem respaceTargets_length (climb : List Nat) (α : List K) (hne : α ≠ []) (hsorted : List.Pairwise (· < ·) (0 :: climb))
+    (hint : ∀ c ∈ climb, c + 1 < α.length) : (Path.respaceTargets climb α).length = α.length := by
+  have : 0 < α.length := List.length_pos_iff.mpr hne
+  simpa [Path.respaceTargets] using respaceGo_length α α.length 0 climb hsorted hint this
+
+/-- the new images with index `0`, `N−1` and the climbing indices are placed at their own arc coordinates. -/
+theorem respaceTargets_pinned (climb : List Nat) (α : List K) (hne : α ≠ []) (hsorted : List.Pairwise (· < ·) (0 :: climb))
+    (hint : ∀ c ∈ climb, c + 1 < α.length) (p : Nat) (hp : p = 0 ∨ p ∈ climb ∨ p + 1 = α.length) :
+    (Path.respaceTargets climb α)[p]? = α[p]? := by
+  have hpos : 0 < α.length := List.length_pos_iff.mpr hne
+  have hlt : p < α.length := by
+    rcases hp with rfl | h | h
+    · exact hpos
+    · have := hint p h; omega
+    · omega
+  have := respaceGo_pinned α α.length 0 climb hsorted hint hpos p hp
+  simp only [Nat.sub_zero] at this
+  rw [Path.respaceTargets, this, List.getElem?_eq_getElem hlt]
+  simp [List.getD, List.getElem?_eq_getElem hlt]
+
+end thms
+
+section spline
+variable {K V : Type} [Field K] [CharZero K] [LinearOrder K] [IsStrictOrderedRing K] [AddCommGroup V] [Module K V]
+variable (dot : V → V → K) (sqrt : K → K)
+
+/-- with an interpolant that returns the knots' values at the knots' arc coordinates (a spline interpolates), the
+    re-spacing keeps the first, the last and the climbing images where the integrator put them: the hypothesis `hkeep`
+    of the fixed-point theorems. -/
+theorem splineRespace_keeps_pinned (interp : List K → List V → K → V) (climb : List Nat)
+    (hsorted : List.Pairwise (· < ·) (0 :: climb)) (rows : List V) (hint : ∀ c ∈ climb, c + 1 < rows.length) (hne : rows ≠ [])
+    (hknot : ∀ i (hi : i < rows.length) (a : K), (Path.arccoordOf dot sqrt rows)[i]? = some a →
+      interp (Path.arccoordOf dot sqrt rows) rows a = rows[i])
+    (i : Nat) (hp : i = 0 ∨ i + 1 = rows.length ∨ i ∈ climb) :
+    (Path.splineRespace dot sqrt interp climb rows)[i]? = rows[i]? := by
+  have hlen := arccoord_length dot sqrt rows hne
+  have hne' : Path.arccoordOf dot sqrt rows ≠ [] := by
+    intro h0; rw [h0] at hlen; exact hne (List.length_eq_zero_iff.mp hlen.symm)
+  have hp' : i = 0 ∨ i ∈ climb ∨ i + 1 = (Path.arccoordOf dot sqrt rows).length := by
+    rw [hlen]; tauto
+  have hpin := respaceTargets_pinned climb (Path.arccoordOf dot sqrt rows) hne' hsorted (by rw [hlen]; exact hint) i hp'
+  have hlt : i < rows.length := by
+    rcases hp with rfl | h | h
+    · exact List.length_pos_iff.mpr hne
+    · omega
+    · have := hint i h; omega
+  have hα : (Path.arccoordOf dot sqrt rows)[i]? = some ((Path.arccoordOf dot sqrt rows)[i]'(by rw [hlen]; exact hlt)) :=
+    List.getElem?_eq_getElem _
+  simp only [Path.splineRespace, List.getElem?_map, hpin, hα, Option.map_some, List.getElem?_eq_getElem hlt]
+  rw [hknot i hlt _ hα]
+
+end spline
+
+section splinestep
+variable {K V : Type} [Field K] [CharZero K] [LinearOrder K] [IsStrictOrderedRing K] [AddCommGroup V] [Module K V]
+variable (dot : V → V → K) (sqrt : K → K)
+
+/-- the fixed-point theorem with the re-spacing of the code spelled out (`splineRespace`: targets `respaceTargets`,
+    an interpolant that returns its knots): a step (Euler) that returns its string has its ends and climbing images at
+    critical points.  The only thing assumed about scipy's spline is that it interpolates its knots. -/
+theorem stringStep_spline_fixed_pinned_critical (p : Path V K) (hp : p.integratorfxn = fun r x h => euler r x h)
+    (hadd : ∀ a b c, dot (a + b) c = dot a c + dot b c) (hsmul : ∀ (k : K) a c, dot (k • a) c = k * dot a c)
+    (hneg : ∀ a c, dot (-a) c = - dot a c) (hdot0 : ∀ c, dot 0 c = 0)
+    (interp : List K → List V → K → V) (h : K) (hh : h ≠ 0) (climb : List Nat)
+    (hsorted : List.Pairwise (· < ·) (0 :: climb)) (hint : ∀ c ∈ climb, c + 1 < p.coord.length)
+    (hc : 2 ≤ p.coord.length)
+    (hknot : ∀ (rows : List V) i (hi : i < rows.length) (a : K), (Path.arccoordOf dot sqrt rows)[i]? = some a →
+      interp (Path.arccoordOf dot sqrt rows) rows a = rows[i])
+    (hunit : ∀ τ ∈ p.unitTangent dot sqrt, dot τ τ = 1)
+    (hfix : (p.stringStep dot sqrt (Path.splineRespace dot sqrt interp) h climb).coord = p.coord)
+    (i : Nat) (hi : i < p.coord.length) (hpin : i = 0 ∨ i + 1 = p.coord.length ∨ i ∈ climb) :
+    p.gradPoint p.coord[i] = 0 := by
+  refine stringStep_fixed_pinned_critical dot sqrt p hp hadd hsmul hneg hdot0 (Path.splineRespace dot sqrt interp) h hh climb hc
+    ?_ hunit hfix i hi hpin
+  intro rows hlen j hj
+  have hne : rows ≠ [] := by
+    intro h0; rw [h0] at hlen; simp at hlen; omega
+  exact splineRespace_keeps_pinned dot sqrt interp climb hsorted rows (by rw [hlen]; exact hint) hne (hknot rows) j hj
+
+end splinestep
+
 section examples3
 /-! non-vacuity of the round-3 hypotheses -/
 -- a re-spacing that keeps the pinned rows exists (the identity; the spline keeps its knots)
-example (climb : List Nat) : ∀ (rows : List ℚ) (i : Nat), (i = 0 ∨ i + 1 = rows.length ∨ i ∈ climb) →
-    ((fun (_ : List Nat) (r : List ℚ) => r) climb rows)[i]? = rows[i]? := fun _ _ _ => rfl
+example (climb : List Nat) (n : Nat) : ∀ (rows : List ℚ), rows.length = n → ∀ (i : Nat), (i = 0 ∨ i + 1 = rows.length ∨ i ∈ climb) →
+    ((fun (_ : List Nat) (r : List ℚ) => r) climb rows)[i]? = rows[i]? := fun _ _ _ _ => rfl
 -- the convergence measure of a concrete step: images 0 -> 1 and 1 -> 1 with time step 1/2
 example : Path.displacement (fun a b : ℚ => a * b) (fun x : ℚ => x) (1/2) [0, 1] [1, 1] = 2 := by
   norm_num [Path.displacement]
@@ -995,6 +1175,9 @@ example : (exPath.apply (.setCoord [0, 0])).stepRow (1/4) 0 = 0 :=
   (stepRow_euler_fixed_iff _ rfl (1/4) (by norm_num) 0).mpr (by simp [Path.gradPoint, Path.apply, exPath])
 example : ∀ (k x : ℝ), 0 < k → Real.sqrt (k * k * x) = k * Real.sqrt x := fun k x hk => by
   rw [show k * k * x = k ^ 2 * x by ring, Real.sqrt_mul (sq_nonneg k), Real.sqrt_sq hk.le]
+-- targets of a 5-image string with arc coordinates 0, 1, 3, 4, 8: no climbing image / image 2 climbing
+example : Path.respaceTargets [] [0, 1, 3, 4, (8 : ℚ)] = [0, 2, 4, 6, 8] := by decide +kernel
+example : Path.respaceTargets [2] [0, 1, 3, 4, (8 : ℚ)] = [0, 3/2, 3, 11/2, 8] := by decide +kernel
 end examples3
 
 end Atomman.C20
